@@ -116,22 +116,26 @@ func (s *Stream) logDroppedDataWithThrottling() {
 
 // callSinksAsync asynchronously calls all sink functions
 func (s *Stream) callSinksAsync(results []map[string]any) {
-	// Safely access sinks slice using read lock
+	// Snapshot the sink lists under the read lock and release it before running
+	// anything: sync sinks (and async ones when the pool is full) execute inline
+	// on this goroutine, and a sink that registers another sink (AddSink /
+	// AddSyncSink take the write lock) would otherwise deadlock against the read
+	// lock its own caller still holds. The slices are append-only, so the
+	// snapshot is just the two slice headers.
 	s.sinksMux.RLock()
-	defer s.sinksMux.RUnlock()
+	sinks, syncSinks := s.sinks, s.syncSinks
+	s.sinksMux.RUnlock()
 
-	if len(s.sinks) == 0 && len(s.syncSinks) == 0 {
+	if len(sinks) == 0 && len(syncSinks) == 0 {
 		return
 	}
 
-	// Directly iterate sinks slice to avoid copy overhead
-	// Since submitSinkTask is async, won't hold lock for long time
-	for _, sink := range s.sinks {
+	for _, sink := range sinks {
 		s.submitSinkTask(sink, results)
 	}
 
 	// Execute synchronous sinks (blocking, sequential)
-	for _, sink := range s.syncSinks {
+	for _, sink := range syncSinks {
 		// Recover panic for each sync sink to prevent crashing the stream
 		func() {
 			defer func() {
